@@ -400,12 +400,15 @@ func (gb *gcpBalancer) getReadySubConnRef(boundKey string) (*subConnRef, bool) {
 }
 
 func (gb *gcpBalancer) getSubConnRoundRobin(ctx context.Context) *subConnRef {
-	if len(gb.scRefList) == 0 {
+	gb.mu.RLock()
+	empty := len(gb.scRefList) == 0
+	gb.mu.RUnlock()
+	if empty {
 		gb.newSubConn()
 	}
+	gb.mu.RLock()
 	scRef := gb.scRefList[atomic.AddUint32(&gb.rrRefId, 1)%uint32(len(gb.scRefList))]
 
-	gb.mu.RLock()
 	if state := gb.scStates[scRef.subConn]; state == connectivity.Ready {
 		gb.mu.RUnlock()
 		return scRef
